@@ -16,6 +16,7 @@ import (
 	"encoding/json"
 	"errors"
 	"fmt"
+	"math"
 	"os"
 
 	"github.com/sourcenetwork/defradb/client"
@@ -133,6 +134,10 @@ func (db *DB) basicImport(ctx context.Context, filepath string) (err error) {
 func resolveJSONNumbers(v any) any {
 	switch val := v.(type) {
 	case json.Number:
+		if val.String() == "-0" {
+			// the float negative zero; as an integer it would lose its sign
+			return math.Copysign(0, -1)
+		}
 		if i, err := val.Int64(); err == nil {
 			return i
 		}
